@@ -1,4 +1,4 @@
-import UralModel.Lemmas.YoutubeReparse
+import UralModel.Lemmas.YoutubeFields
 import UralModel.Props.C09
 import UralModel.Props.C15
 /-!
@@ -17,9 +17,10 @@ string* `url` (`urlsplit`, `safe_urlsplit`, `pathsplit`, `infer_redirection`,
 * totality: `parse_youtube_url_total`, `extract_video_id_total`, `normalize_youtube_url_total`.
 * validators: `record_valid`, `extract_video_id_valid`.
 * round trip through the canonical url (`recordUrl r`, what `normalize_youtube_url` builds):
-  `reparse_url_partial` on the region `Good` (fields without `&`, `%`, url delimiters,
-  trailing white space; channel names not reserved), `reparse_short` and
-  `reparse_video_without_playlist` full; `fullReparse_false` — outside `Good` the statement is
+  `record_fields` (what the parser guarantees about the fields), `reparse_url_partial` on the
+  region `Residual` (fields without `&`, `%`, trailing white space; playlist ids without `?`, `/`,
+  `%`; channel names not reserved), `reparse_short` and
+  `reparse_video_without_playlist` full; `fullReparse_false` — outside `Residual` the statement is
   false (known findings KF-C19-YT-1/2/3); `normalize_youtube_idempotent_partial`,
   `normalize_unparsed_fixed`.
 -/
@@ -158,15 +159,52 @@ def FullReparse : Prop :=
     parse_youtube_url puny t url true = .ok (some r) →
     parse_youtube_url puny t (recordUrl r) true = .ok (some r)
 
+/-- **what the parser guarantees about the fields**: a playlist id is non-empty and holds no
+`&` / `#`; a user name, a channel id or name is a piece of the path `urlsplit` hands out: no
+`/`, `?`, `#`, TAB, CR, LF -/
+theorem record_fields (puny : Str → Str) (t : T) (url : Str) (fix : Bool) (r : Record)
+    (h : parse_youtube_url puny t url fix = .ok (some r)) : Fields r :=
+  parse_fields puny t url fix r h
+
+/-- what is *left* to assume for the round trip, beyond what the parser guarantees: a playlist
+id without `?`, `/`, `%`; a user name / channel id without `&`, `%` and without trailing white
+space; a channel name without `&`, `%` that is not a reserved word -/
+def Residual : Record → Prop
+  | .video _ (some p) => ∀ c ∈ p, c ≠ '?' ∧ c ≠ '/' ∧ c ≠ '%'
+  | .video _ none => True
+  | .user name => (∀ c ∈ name, c ≠ '&' ∧ c ≠ '%') ∧ NoTrailingBlank name
+  | .channel (some cid) _ => (∀ c ∈ cid, c ≠ '&' ∧ c ≠ '%') ∧ NoTrailingBlank cid
+  | .channel none (some name) => (∀ c ∈ name, c ≠ '&' ∧ c ≠ '%') ∧ name ∉ blacklist
+  | .channel none none => True
+  | .short _ => True
+
+instance (r : Record) : Decidable (Residual r) := by
+  unfold Residual
+  split <;> infer_instance
+
+theorem good_of_residual (r : Record) (hv : Valid true r) (hf : Fields r) (hr : Residual r) : Good r := by
+  match r, hv, hf, hr with
+  | .video _ none, _, _, _ => trivial
+  | .short _, _, _, _ => trivial
+  | .video _ (some p), _, hf, hr =>
+    exact ⟨hf.1, fun c hc => ⟨(hf.2 c hc).1, (hf.2 c hc).2, (hr c hc).1, (hr c hc).2.1, (hr c hc).2.2⟩⟩
+  | .user name, _, hf, hr =>
+    exact ⟨fun c hc => ⟨(hf c hc).1, (hf c hc).2.1, (hf c hc).2.2.1, (hr.1 c hc).1, (hr.1 c hc).2, (hf c hc).2.2.2⟩, hr.2⟩
+  | .channel (some cid) none, _, hf, hr =>
+    exact ⟨fun c hc => ⟨(hf c hc).1, (hf c hc).2.1, (hf c hc).2.2.1, (hr.1 c hc).1, (hr.1 c hc).2, (hf c hc).2.2.2⟩, hr.2⟩
+  | .channel none (some name), _, hf, hr =>
+    exact ⟨fun c hc => ⟨(hf c hc).1, (hf c hc).2.1, (hf c hc).2.2.1, (hr.1 c hc).1, (hr.1 c hc).2, (hf c hc).2.2.2⟩, hr.2⟩
+
 /-- **re-parsing the canonical url gives the same record** for every url whose record lies in
-`Good`: playlist ids without `?`, `/`, `%`; user names and channel ids without `&`, `%`, url
-delimiters, TAB/CR/LF and trailing white space; channel names likewise (trailing white space
-allowed) and not reserved.  `t` is any domain trie that knows `www.youtube.com`
-(`youtube_trie_knows_www`: the module's trie does). -/
+`Residual`: playlist ids without `?`, `/`, `%`; user names and channel ids without `&`, `%` and
+trailing white space; channel names without `&`, `%` and not reserved.  Everything else `Good`
+asks for is guaranteed by the parser (`record_valid`, `record_fields`).  `t` is any domain trie
+that knows `www.youtube.com` (`youtube_trie_knows_www`: the module's trie does). -/
 theorem reparse_url_partial (puny : Str → Str) (t : T) (hT : KnowsWww puny t) (url : Str) (r : Record)
-    (h : parse_youtube_url puny t url true = .ok (some r)) (hg : Good r) :
+    (h : parse_youtube_url puny t url true = .ok (some r)) (hr : Residual r) :
     parse_youtube_url puny t (recordUrl r) true = .ok (some r) :=
-  reparse_of_good puny t hT roundtrip_obligations r (record_valid puny t url true r h) hg
+  reparse_of_good puny t hT roundtrip_obligations r (record_valid puny t url true r h)
+    (good_of_residual r (record_valid puny t url true r h) (record_fields puny t url true r h) hr)
 
 /-- full for shorts: `youtube.com/shorts/<id>` always parses back -/
 theorem reparse_short (puny : Str → Str) (t : T) (hT : KnowsWww puny t) (url id : Str)
@@ -202,7 +240,7 @@ def smallTrie : T := ["youtube.com".toList, "youtu.be".toList].foldl (add isSpec
 
 theorem smallTrie_knows_www : KnowsWww id smallTrie := by unfold KnowsWww; decide +kernel
 
-/-- outside `Good` the full statement is false: `youtube.com/@watch` parses to the channel
+/-- outside `Residual` the full statement is false: `youtube.com/@watch` parses to the channel
 `watch`, whose canonical url `https://www.youtube.com/watch` parses to `None`
 (known finding KF-C19-YT-1) -/
 theorem fullReparse_false : ¬ FullReparse := by
@@ -229,11 +267,11 @@ example :
       (recordUrl (.video "dQw4w9WgXcQ".toList (some "a?u=http://x.com/".toList))) true = .ok none := by
   rw [parse_eq_fuel, parse_eq_fuel]; decide +kernel
 
-/-- non-vacuity: a video with a playlist, found behind a fragment-swallowing url, in `Good` -/
+/-- non-vacuity: a video with a playlist, found behind a fragment-swallowing url, in `Residual` -/
 example :
     parse_youtube_url id smallTrie "https://m.youtube.com/watch?feature=share&v=dQw4w9WgXcQxx&list=PL1#frag".toList true =
       .ok (some (.video "dQw4w9WgXcQ".toList (some "PL1".toList))) ∧
-    Good (.video "dQw4w9WgXcQ".toList (some "PL1".toList)) ∧
+    Residual (.video "dQw4w9WgXcQ".toList (some "PL1".toList)) ∧
     recordUrl (.video "dQw4w9WgXcQ".toList (some "PL1".toList)) =
       "https://www.youtube.com/watch?v=dQw4w9WgXcQ&list=PL1".toList := by
   rw [parse_eq_fuel]; decide +kernel
@@ -242,7 +280,7 @@ example :
     parse_youtube_url id smallTrie "youtu.be/".toList true = .ok none ∧
     parse_youtube_url id smallTrie "youtube.com/c/@Some-Name/videos".toList true =
       .ok (some (.channel none (some "Some-Name".toList))) ∧
-    Good (.channel none (some "Some-Name".toList)) := by
+    Residual (.channel none (some "Some-Name".toList)) := by
   rw [parse_eq_fuel, parse_eq_fuel]; decide +kernel
 
 /-! ## `normalize_youtube_url` is idempotent -/
@@ -260,9 +298,9 @@ def FullIdempotent : Prop :=
     normalize_youtube_url puny t url = .ok n → normalize_youtube_url puny t n = .ok n
 
 /-- **`normalize_youtube_url` is idempotent** on every url that does not parse (full) and on
-every url whose record lies in `Good` -/
+every url whose record lies in `Residual` -/
 theorem normalize_youtube_idempotent_partial (puny : Str → Str) (t : T) (hT : KnowsWww puny t)
-    (url n : Str) (hg : ∀ r, parse_youtube_url puny t url true = .ok (some r) → Good r)
+    (url n : Str) (hg : ∀ r, parse_youtube_url puny t url true = .ok (some r) → Residual r)
     (h : normalize_youtube_url puny t url = .ok n) : normalize_youtube_url puny t n = .ok n := by
   unfold normalize_youtube_url at h
   cases hp : parse_youtube_url puny t url true with
@@ -281,7 +319,7 @@ theorem normalize_youtube_idempotent_partial (puny : Str → Str) (t : T) (hT : 
       unfold normalize_youtube_url
       rw [this]
 
-/-- outside `Good` idempotence fails: `youtube.com/user/x␠/` normalizes to `…/user/x␠`, which
+/-- outside `Residual` idempotence fails: `youtube.com/user/x␠/` normalizes to `…/user/x␠`, which
 normalizes to `…/user/x` (known finding KF-C19-YT-2) -/
 theorem fullIdempotent_false : ¬ FullIdempotent := by
   intro h
